@@ -114,6 +114,36 @@ def run(tier, seed):
                 rec.fail(f"gather:{t}", f"{t!r}: three concurrent async evaluations differ from the sync results", "sys.exit(2)")
             else:
                 rec.ok()
+            # the same with item getters that give the loop a chance to switch tasks between items: the
+            # evaluations really interleave (shared state of the compiled query would show here)
+            ws = [wrap(d) for d in ds]
+            want = [outcome_sync(p, w, fc) for w in ws]
+            got = await asyncio.gather(*[outcome_async(p, w, fc) for w in ws])
+            if repr(want) != repr(list(got)):
+                rec.fail(f"gather-interleaved:{t}", f"{t!r}: concurrent async evaluations on {len(ws)} documents with suspending item getters differ from the sync results: {list(got)!r} vs {want!r}"[:900], "sys.exit(2)")
+            else:
+                rec.ok()
+
+        # one compiled query, several documents that differ in what `$` refers to inside the filter,
+        # evaluated concurrently with suspending item getters: per-evaluation state (the cache of
+        # root-dependent sub-queries) must not leak from one evaluation into another
+        shared = [
+            ("$.items[?@.v == $.target]", [{"target": k, "items": [{"v": 1}, {"v": 2}, {"v": 1}, {"v": 2}]} for k in (1, 2, 3)]),
+            ("$.items[?@.v > $.lo && @.v < $.hi]", [{"lo": a, "hi": b, "items": [{"v": n} for n in range(6)]} for a, b in ((0, 3), (2, 6), (4, 5))]),
+            ("$.xs[?count($.ys[?@ == 1]) == @]", [{"ys": ys, "xs": [0, 1, 2, 3]} for ys in ([1], [1, 1], [2], [1, 2, 1, 1])]),
+            ("$[?@.k == $[0].k]", [[{"k": a}, {"k": b}, {"k": a}] for a, b in ((1, 2), (2, 1), (3, 3))]),
+        ]
+        for t, ds in shared:
+            p = jsonpath.compile(t)
+            for rounds in range(2):  # a second round reuses whatever the first one left in the compiled query
+                ws = [wrap(d) for d in ds]
+                want = [outcome_sync(p, d, None) for d in ds]
+                got = list(await asyncio.gather(*[outcome_async(p, w, None) for w in ws]))
+                if repr(want) != repr(got):
+                    rec.fail(f"shared-state:{t}:{rounds}", f"{t!r} evaluated concurrently on {ds!r} (suspending item getters): async results {got!r}, sync results one by one {want!r}"[:1200],
+                             "sys.exit(2)")
+                else:
+                    rec.ok(("shared", t, rounds))
 
     asyncio.run(main())
     return rec.result()
